@@ -28,10 +28,7 @@ import (
 
 func init() { vh.Register("C03", Run) }
 
-const (
-	ClassNearTie     = "catchup-near-tie-first-seen"
-	ClassFailedReorg = "crash-inside-failing-reorg-keeps-intermediate-tip"
-)
+const ClassNearTie = "catchup-near-tie-first-seen"
 
 type snapshot struct {
 	n       int // flush number
@@ -328,39 +325,64 @@ func reopen(c *vh.Case, t *chainx.Tree, ids *c02.IDs, decls map[int]*c02.Decl, o
 	if from < 0 {
 		from = 0
 	}
-	// catch-up: the remaining batches, from the interrupted one on, in their original order and
-	// batching (replaying earlier batches too would be a different history: an orphan batch that was
-	// rejected the first time is accepted once its parent is stored)
-	for i := from; i < len(sched); i++ {
+	// catch-up, phase A: the remaining batches, from the interrupted one on, in their original order
+	// and batching
+	submit := func(i int) bool {
 		if res := rig2.Submit(sched[i]); res == "panic" {
 			c2.Oracle("catchup-panic", "%s: AddBlocks panicked while resubmitting batch %d: %s", where, i, rig2.PanicMsg)
+			return false
+		}
+		return true
+	}
+	for i := from; i < len(sched); i++ {
+		if !submit(i) {
 			break
 		}
 	}
-	// was the interrupted reorg one that fails (its batch offers a chain with an invalid block)?
-	failing := false
-	if s.mid && s.batch >= 0 && s.batch < len(sched) {
-		for _, id := range sched[s.batch] {
-			if b := t.Blocks[id]; b.Parent != chainx.OrphanParent && !t.AllValid(id) {
-				failing = true
+	// phase B, only when A did not reach the uninterrupted tip: the earlier batches are offered
+	// again as well.  This is what brings a node that stopped inside a failing reorg (and reopened
+	// on one of its transient tips) back: the branch the uninterrupted run rolled back to is stored
+	// with supplements and is simply re-offered.  (Re-offering everything is not the same history as
+	// the uninterrupted run — an orphan batch that was rejected then may be accepted now — so the
+	// expectation after B is decided from the works: the node must not stay on a tip that the
+	// uninterrupted tip is sufficiently heavier than.)
+	phaseB := false
+	if nd.CM.Tip() != finalTip && !rig2.Panicked {
+		phaseB = true
+		c.Tags = append(c.Tags, "catchup-phase-B")
+		for i := 0; i < from && i < len(sched); i++ {
+			if !submit(i) {
+				break
 			}
 		}
 	}
 	got := nd.CM.Tip()
-	gotID, _ := t.Lookup(got.ID)
+	gotID, known := t.Lookup(got.ID)
 	switch {
+	case rig2.Panicked:
+	case !known:
+		c2.Oracle("catchup-tip-unknown", "%s: catch-up ended on a block that was never submitted", where)
 	case got != finalTip:
 		a, b := t.Blocks[finalID], t.Blocks[gotID]
-		if failing {
-			c2.Oracle(ClassFailedReorg, "%s: the process stopped inside a reorg that was going to fail and be rolled back; the reopened node stays on block %d (work %v), the uninterrupted run rolled back to and ended on block %d (work %v)", where, gotID, b.Work, finalID, a.Work)
-		} else if s.tainted || orig.Tainted || rig2.Tainted {
+		switch {
+		case s.tainted || orig.Tainted || rig2.Tainted:
 			// a permuted expiration list makes an expiry block that is valid on a linear node fail
 			// validation here (commitment mismatch), so reorgs fail and are rolled back differently
 			c2.Oracle(c02.ClassExpOrder, "%s: catch-up ended on block %d, the uninterrupted run on block %d (one of the runs reverted a mid-list removal, after which an expiry block valid on a linear node can be rejected)", where, gotID, finalID)
-		} else if a.Work != nil && b.Work != nil && !heavier(a, b) && !heavier(b, a) {
+		case !t.AllValid(gotID):
+			c2.Oracle("catchup-ends-on-invalid-chain", "%s: catch-up ended on block %d whose ancestry is not fully valid", where, gotID)
+		case a.Work == nil || b.Work == nil:
+			c2.Oracle("catchup-different-tip", "%s: catch-up ended on block %d, the uninterrupted run on block %d", where, gotID, finalID)
+		case heavier(a, b):
+			// every block of the uninterrupted tip's branch is stored with its supplement and was
+			// offered again, and that branch is sufficiently heavier than where the node sits
+			c2.Oracle("catchup-stays-on-lighter-chain", "%s: after resubmitting the remaining and then the earlier batches (phase B=%v) the node sits on block %d (work %v, difficulty %v) although the uninterrupted run's tip %d (work %v) is sufficiently heavier and fully stored", where, phaseB, gotID, b.Work, b.Diff, finalID, a.Work)
+		case heavier(b, a):
+			// re-offering completed a branch the uninterrupted run had rejected as orphans: a heavier,
+			// fully valid chain is the right place to be
+			c.Tags = append(c.Tags, "catchup-found-heavier-chain")
+		default:
 			c2.Oracle(ClassNearTie, "%s: catch-up ended on block %d, the uninterrupted run on block %d; neither is sufficiently heavier than the other (works %v / %v, difficulty %v)", where, gotID, finalID, b.Work, a.Work, a.Diff)
-		} else {
-			c2.Oracle("catchup-different-tip", "%s: catch-up ended on block %d (work %v), the uninterrupted run on block %d (work %v)", where, gotID, b.Work, finalID, a.Work)
 		}
 	case !bytes.Equal(encode(nd.CM.TipState()), finalState):
 		if s.tainted || orig.Tainted || rig2.Tainted {
@@ -372,6 +394,78 @@ func reopen(c *vh.Case, t *chainx.Tree, ids *c02.IDs, decls map[int]*c02.Decl, o
 	for _, f := range c2.Fails {
 		f.Op = len(c.Ops) - 1
 		c.Fails = append(c.Fails, f)
+	}
+}
+
+// heaviestValidLeaf returns the fully valid block with the most work.
+func heaviestValidLeaf(t *chainx.Tree) int {
+	best := 0
+	for _, b := range t.Blocks[1:] {
+		if b.Parent != chainx.OrphanParent && t.AllValid(b.ID) && b.Work != nil && b.Work.Cmp(t.Blocks[best].Work) > 0 {
+			best = b.ID
+		}
+	}
+	return best
+}
+
+// DirectedFailingReorg: the node first follows the heaviest valid chain to its end; then a branch
+// arrives that forks off below the tip, is heavier, and whose first own block passes the header
+// checks but fails ValidateBlock.  The reorg reverts part of the best chain, fails and is rolled
+// back; every revert and re-apply is a commit point.  Reopened on one of those transient tips the
+// node must come back to the uninterrupted tip when the history is offered again: that branch is
+// stored with supplements and sufficiently heavier than where the node sits.
+func DirectedFailingReorg(r *vh.Run, rng *vh.RNG, name string, maxReopen int) {
+	net := c02.StoreNet(rng)
+	var t *chainx.Tree
+	cfg := chainx.GenCfg{Main: 8 + rng.Intn(5), Forks: 1, MaxBranch: 3, Kinds: c02.Menu(), TxPerBlk: 3}
+	if msg := c02.Guarded(func() { t = chainx.GenTree(rng, net, cfg) }); msg != "" {
+		c := &vh.Case{Name: name}
+		c.Oracle("generator-block-rejected", "%s", msg)
+		r.Add(c)
+		return
+	}
+	leaf := heaviestValidLeaf(t)
+	var cands []int
+	for x := leaf; x != 0; x = t.Blocks[x].Parent {
+		// leave at least two blocks of the best chain above the fork so that the reorg has several steps
+		if len(t.Blocks[x].Kinds) > 0 && t.Blocks[leaf].Height-t.Blocks[x].Height >= 2 {
+			cands = append(cands, x)
+		}
+	}
+	bad := -1
+	for _, src := range cands {
+		id := t.Corrupt(rng, src, []string{"sig", "dup-txn"}[rng.Intn(2)])
+		if id >= 0 && t.Blocks[id].HdrOk && !t.Blocks[id].BodyOk && !t.Blocks[id].Future {
+			bad = id
+			break
+		}
+	}
+	if bad < 0 {
+		c := &vh.Case{Name: name, Tags: []string{"directed:failing-reorg-not-built"}}
+		r.Add(c)
+		return
+	}
+	at := bad
+	for t.Blocks[at].Height <= t.Blocks[leaf].Height+1 {
+		at = t.MineEmpty(rng, at, 1)
+	}
+	// schedule: the valid chain in segments, then the invalid branch, then whatever else the tree has
+	var sched [][]int
+	path := t.PathFromRoot(leaf)
+	for k := 0; k < len(path); {
+		n := 1 + rng.Intn(4)
+		if k+n > len(path) {
+			n = len(path) - k
+		}
+		sched = append(sched, path[k:k+n])
+		k += n
+	}
+	sched = append(sched, t.PathFromRoot(at))
+	sched = append(sched, t.Schedule(rng)...)
+	ids := c02.NewIDs()
+	decls := c02.Declare(t, ids)
+	for _, kind := range []string{"mem", "cache", "bolt"} {
+		History(r, name+"/"+kind, t, ids, decls, sched, kind, rng.Fork(), true, maxReopen)
 	}
 }
 
@@ -388,7 +482,10 @@ func Run(r *vh.Run) {
 		c02.Safely(r, fmt.Sprintf("tree%d", i), func() {
 			net := c02.StoreNet(trng)
 			cfg := chainx.GenCfg{Main: 7 + trng.Intn(r.Pick(6, 12)), Forks: 2 + trng.Intn(3), MaxBranch: 3 + trng.Intn(r.Pick(5, 9)),
-				Kinds: c02.Menu(), TxPerBlk: 3, Corrupt: trng.Intn(3), Extend: 2}
+				Kinds: c02.Menu(), TxPerBlk: 3, Corrupt: trng.Intn(3), Extend: 2,
+				// every third tree gets a near-tie branch and a header-valid / body-invalid branch extended
+				// until it is the heaviest: a reorg that fails half way and is rolled back
+				Directed: i%3 == 0}
 			var t *chainx.Tree
 			if msg := c02.Guarded(func() { t = chainx.GenTree(trng, net, cfg) }); msg != "" {
 				c := &vh.Case{Name: fmt.Sprintf("tree%d", i)}
@@ -403,6 +500,12 @@ func Run(r *vh.Run) {
 				armAll := !(kind == "mem" && i%2 == 1)
 				History(r, fmt.Sprintf("tree%d/%s", i, kind), t, ids, decls, sched, kind, trng.Fork(), armAll, maxReopen)
 			}
+		})
+	}
+	for i := 0; i < r.Pick(3, 40); i++ {
+		drng := rng.Fork()
+		c02.Safely(r, fmt.Sprintf("failing-reorg%d", i), func() {
+			DirectedFailingReorg(r, drng, fmt.Sprintf("failing-reorg%d", i), maxReopen)
 		})
 	}
 	r.Assume("the atom of durability is chain.DB.Flush: torn writes inside bbolt's commit, fsync and OS power-loss semantics are not modelled or exercised")
